@@ -998,6 +998,11 @@ class WCS(object):
         return matrix, count, order
 
     def ExtractSIPCoeffs(self, wcs, prefix):
+        if prefix in ("ap", "bp") and (prefix + "_order") not in wcs:
+            # the inverse coefficients are optional; when absent the
+            # inverse is fit the first time it is needed
+            return np.zeros((1, 1), dtype="f8"), 0, 0
+
         order = _dict_get(wcs, prefix + "_order")
         matrix = np.zeros((order + 1, order + 1), dtype="f8")
         count = 0
